@@ -1,4 +1,5 @@
 import DustVerif.Model.Rtps
+import DustVerif.Model.AckWait
 import DustVerif.Driver.Util
 /-! Line-protocol driver of the `rtps` engine (see harness/src/bin/rtps.rs for the op list). -/
 namespace DustVerif.Driver.RtpsEngine
@@ -133,6 +134,9 @@ def step (st : St) (line : String) : St × String :=
     | ["tick", ms] => match st.sys, ms.toNat? with
       | some s, some ms => finish st (s.step st.cfg (.tick ms))
       | _, _ => (st, "bad-op")
+    | ["acked", sn] => match st.sys, sn.toNat? with
+      | some s, some sn => (st, toString (s.w.isChangeAcknowledged sn))
+      | _, _ => (st, "bad-op")
     | [op, i] =>
       if op == "deliver" || op == "drop" || op == "dup" then
         match st.sys, i.toNat? with
@@ -147,6 +151,9 @@ def step (st : St) (line : String) : St × String :=
         | .panic => ({ st with poisoned := true }, "PANIC")
         | .ok (s', out) =>
           ({ st with sys := some s' }, s!"{showDgrams out}{if s'.net.isEmpty then "" else " flush-limit"} | {showCache s'}")
+      | none => (st, "bad-op")
+    | ["histrecv"] => match st.sys with
+      | some s => (st, toString (DustVerif.AckWait.histReceived s.r))
       | none => (st, "bad-op")
     | ["net"] => match st.sys with
       | some s => (st, showDgrams s.net)
